@@ -48,7 +48,10 @@ Scenarios == <<
     Scen(PushOf(SigC) \o PushOf(Sig75) \o <<172>>, 0, <<SigC, Sig75>>),   \* 8 PUSHDATA1 boundary 75 / 76
     Scen(PushOf(Rep(171, 249)) \o <<172>>, 0, <<>>),        \* 9 script code of 252 bytes
     Scen(PushOf(Rep(171, 250)) \o <<172>>, 0, <<>>),        \* 10 ... of 253: compact size 0xfd
-    Scen(PushOf(Rep(5, 250)) \o <<171>> \o PushOf(SigA), 0, <<SigA>>)   \* 11 253 before, 242 after rewriting
+    Scen(PushOf(Rep(5, 250)) \o <<171>> \o PushOf(SigA), 0, <<SigA>>),  \* 11 253 before, 242 after rewriting
+    \* 12 blobs too short to be signatures, still removed by the interpreter: the patterns are
+    \* 01 05, 00 (empty blob), 01 81 - never the number opcodes OP_5 (85) / OP_1NEGATE (79)
+    Scen(<<85, 1, 5, 0, 79, 1, 129, 85, 172>>, 0, << <<5>>, <<>>, <<129>> >>)
 >>
 ASSUME \A k \in 1..Len(Scenarios) : WellFormed(Scenarios[k].script)
 ASSUME Len(Scenarios[9].script) = 252 /\ Len(Scenarios[10].script) = 253
